@@ -1,8 +1,12 @@
+//go:build verif
 // +build verif
 
 package app
 
 import (
+	"errors"
+
+	"github.com/Oneledger/protocol/data/rewards"
 	"github.com/Oneledger/protocol/vm"
 )
 
@@ -73,4 +77,33 @@ func (app *App) VerifInterpose(before func(method string, req interface{}), afte
 // transactions against (read-only use by the verification harness).
 func (app *App) VerifStateDB() *vm.CommitStateDB {
 	return app.Context.stateDB
+}
+
+// VerifTwinPull returns the block reward a node that was started just now
+// would pull for the given height: a fresh cumulative store and calculator
+// (nothing cached) over the application's current deliver state. Read-only.
+//
+// Verification-only: compiled with the "verif" build tag, never in production.
+func (app *App) VerifTwinPull(height int64) (string, error) {
+	ctx := app.Context
+	cm := rewards.NewRewardCumulativeStore("rwcum", ctx.deliver)
+	cm.SetOptions(ctx.rewardMaster.RewardCm.GetOptions())
+	cm.Init(ctx.blockStore)
+	curr, ok := ctx.currencies.GetCurrencyById(0)
+	if !ok {
+		return "", errors.New("no currency 0")
+	}
+	poolList, err := ctx.govern.GetPoolList()
+	if err != nil {
+		return "", err
+	}
+	pool, err := ctx.balances.WithState(ctx.deliver).GetBalanceForCurr(poolList["RewardsPool"], &curr)
+	if err != nil {
+		return "", err
+	}
+	amt, err := cm.PullRewards(height, pool.Amount)
+	if err != nil {
+		return "", err
+	}
+	return amt.String(), nil
 }
